@@ -68,6 +68,11 @@ def propCmp (today : Date) (op : PropOp) (vt : VType) (nv fv : Str) : Option Boo
     | .ok fd, some nd => some (cmpOp op (dateLt nd fd) (nd == fd))
     | _, _ => none
 
+/-- a property value that is certainly no date for SQLite's `date()` (→ NULL): it contains no digit and is not
+the word `now`.  Such a value satisfies no date comparison, negated or not (the negated comparison still
+"compares as date").  Other non-`YYYY-MM-DD` values (times, Julian day numbers, …) stay open. -/
+def noDateValue (nv : Str) : Bool := !nv.any isDigit && lowerStr nv != "now".toList
+
 /-- does note `n` link to page `p` (directly, by anchor, or through ID / RID / ZID of a note of `p.zo`)? -/
 def linksTo (idx : Index) (n : NoteRow) (p : Str) : Bool :=
   let inPage := idx.filter (fun m => m.path == p ++ ".zo".toList)
@@ -100,6 +105,7 @@ def satAtom (idx : Index) (today : Date) (n : NoteRow) : Atom → Option Bool
     | none => some (op == .exists && neg)           -- no such property: only a negated existence test holds
     | some nv =>
       if op == .exists then some (!neg)
+      else if vt == .date && noDateValue nv && (fromDateSpec today value).toOption.isSome then some false
       else (propCmp today op vt nv value).map (fun b => b != neg)   -- negated comparison: exists ∧ ¬cmp
   | .desc value cs neg =>
     let sensitive := cs || !pyIsLower value
